@@ -1,6 +1,25 @@
 ------------------------------- MODULE Fancy -------------------------------
-(* Prototype: abstract syntax of layout programs, their JSON rendering and    *)
-(* the reference ("hand-written") expansion to basic mappings.                 *)
+(***************************************************************************)
+(* The layout language (properties C13, C14, C15): abstract syntax of       *)
+(* layout programs, their rendering as the JSON the loader reads (with       *)
+(* spelling choices), and the reference meaning Expand(P): the hand-written  *)
+(* expansion of every shorthand into basic mappings.  The character table    *)
+(* (CharKey) and the rows (RowKeys) are an independent transcription of a    *)
+(* US-QWERTY keyboard, not a copy of the tool's tables.                      *)
+(*                                                                          *)
+(* Items: [ty |-> "alias", from, extra, name]                               *)
+(*        [ty |-> "single", mods, key, tomods, toterm, rep, abs]            *)
+(*        [ty |-> "row", mods, row, tomods, letters, rep, abs]              *)
+(*        [ty |-> "reponly", mods, key, rep]                                *)
+(* modifiers are K(key) or A("@alias"); letters are sequences of one-       *)
+(* character strings (TLC cannot index strings).                             *)
+(*                                                                          *)
+(* Expand(P) = [ok, blocks, tailblocks, mappings]: `mappings` in the order   *)
+(* the statement fixes (source order between source mappings); blocks[n] =   *)
+(* how many of them source item n contributed in the first pass,             *)
+(* tailblocks[n] = how many identity mappings repeat-only item n appended.   *)
+(* Inside one block the order is not significant.                            *)
+(***************************************************************************)
 EXTENDS Naturals, Sequences, FiniteSets, SequencesExt
 
 StdMods == {"LEFTSHIFT","RIGHTSHIFT","LEFTMETA","RIGHTMETA","LEFTCTRL","RIGHTCTRL","LEFTALT","RIGHTALT"}
@@ -166,9 +185,16 @@ RepeatEntries(P) ==
           [c \in 1..Len(cs) |-> [from |-> FromMods(P, it.mods, cs[c]) \o <<it.key>>, rep |-> SingleRep(P, it.mods, cs[c], it.rep)]]])
 
 Blocks(P) == [n \in 1..Len(P) |-> ExpandItem(P, P[n])]
+\* identity mappings appended by repeat-only item n: its entries whose trigger set no first-pass mapping has
+TailCount(P, first, n) ==
+  IF P[n].ty # "reponly" THEN 0
+  ELSE LET it == P[n]  cs == Combos(P, it.mods) IN
+       Cardinality({c \in cs: ~\E i \in 1..Len(first): TriggerSet(first[i].from) = TriggerSet(FromMods(P, it.mods, c) \o <<it.key>>)})
 Expand(P) ==
-  IF Rejected(P) THEN [ok |-> FALSE, blocks |-> <<>>, mappings |-> <<>>]
-  ELSE LET first == FlattenSeq(Blocks(P)) IN
-       [ok |-> TRUE, blocks |-> [n \in 1..Len(P) |-> Len(Blocks(P)[n])],
+  IF Rejected(P) THEN [ok |-> FALSE, blocks |-> <<>>, tailblocks |-> <<>>, mappings |-> <<>>]
+  ELSE LET bl == Blocks(P)
+           first == FlattenSeq(bl) IN
+       [ok |-> TRUE, blocks |-> [n \in 1..Len(P) |-> Len(bl[n])],
+        tailblocks |-> [n \in 1..Len(P) |-> TailCount(P, first, n)],
         mappings |-> RepeatPass(P, first, first, RepeatEntries(P))]
 =============================================================================
